@@ -72,8 +72,8 @@ impl Prop for C13 {
     }
     fn runs(&self, tier: Tier) -> u64 {
         match tier {
-            Tier::Quick => 220,
-            Tier::Thorough => 4000,
+            Tier::Quick => 600,
+            Tier::Thorough => 12000,
         }
     }
     fn rule(&self) -> &'static str {
